@@ -3,7 +3,7 @@ package main
 func init() { register("C09", checkC09) }
 
 func checkC09(r *Run) {
-	r.Explain = "Decides CBOR well-formedness as far as it is structural: A2 (binary_log configuration) the front-end typestate — map items come in key/value pairs, every indefinite map/array gets exactly one break, the writer receives one closed item; A18 every inline 5-bit length/value is guarded by `<= 23`, appendCborTypePrefix's (range, byte count, minor) table equals RFC 8949 §3 with big-endian emission, every definite-length header counts the very value that follows as payload (one item per element, no early exit), constant tag headers spell declared tag numbers, literal float items have the announced length, map keys go through AppendString (text strings); A6 the integer appenders widen the logged value without loss under linux/amd64 (and 386 in the thorough tier); A1 no appender result dropped. Floats: head byte, payload width and the three non-finite bit patterns of the CBOR float appenders (shared with C08). DUR the duration appender passes the integer quotient d/unit to the integer appender and float64(d)/float64(unit) to the float appender. WIDTH also: a literal non-finite item is chosen by a sign-specific test (math.IsInf(v, 0) holds for both infinities). A18 length-is-len-of-payload: the string/bytes appenders announce len(x) of the very x they append. A5 arms-not-shadowed: Fields() reaches the tagged arms of net.IP/net.HardwareAddr. COPY: a diode destination appends the event to an empty buffer."
+	r.Explain = "Decides CBOR well-formedness as far as it is structural: A2 (binary_log configuration) the front-end typestate — map items come in key/value pairs, every indefinite map/array gets exactly one break, the writer receives one closed item; A18 every inline 5-bit length/value is guarded by `<= 23`, appendCborTypePrefix's (range, byte count, minor) table equals RFC 8949 §3 with big-endian emission, every definite-length header counts the very value that follows as payload (one item per element, no early exit), constant tag headers spell declared tag numbers, literal float items have the announced length, map keys go through AppendString (text strings); A6 the integer appenders widen the logged value without loss under linux/amd64 (and 386 in the thorough tier); A1 no appender result dropped. Floats: head byte, payload width and the three non-finite bit patterns of the CBOR float appenders (shared with C08). DUR the duration appender passes the integer quotient d/unit to the integer appender and float64(d)/float64(unit) to the float appender. WIDTH also: a literal non-finite item is chosen by a sign-specific test (math.IsInf(v, 0) holds for both infinities). A18 length-is-len-of-payload: the string/bytes appenders announce len(x) of the very x they append. A5 arms-not-shadowed: Fields() reaches the tagged arms of net.IP/net.HardwareAddr. COPY: a diode destination appends the event to an empty buffer. A6 front-end: the Event/Array/Context methods pass integers on unchanged or through value-preserving conversions."
 	r.NotDec = "Float bit patterns, content of tagged payloads, equality of decoded values, 'read by an independent parser': value-level."
 	r.Assume = []string{"user marshalers act through the exported API"}
 	p := r.Use("B")
